@@ -191,6 +191,7 @@ type rsRun struct {
 	tags    map[string]bool
 	anomaly int
 	pair    *rsPair
+	subOpt  bool
 }
 
 // two publishers overlapping: while the live handler is handling v1 a second goroutine publishes v2 and gets as far as
@@ -228,7 +229,12 @@ func (r *rsRun) open() {
 	}
 	r.ctl.dead = false
 	r.ctl.begin(-1, -1)
-	r.bus = eb.New(eb.WithStore(&faultStore{inner: r.inner, ctl: r.ctl}))
+	fs := &faultStore{inner: r.inner, ctl: r.ctl}
+	if r.subOpt { // the explicit option instead of the store's own SubscriptionStore implementation
+		r.bus = eb.New(eb.WithStore(fs), eb.WithSubscriptionStore(fs))
+	} else {
+		r.bus = eb.New(eb.WithStore(fs))
+	}
 	r.live = map[int]bool{}
 }
 
@@ -482,7 +488,7 @@ func runResub(kind string, withInner bool, directed int) func(rng *rand.Rand, id
 		} else {
 			ops = genResub(rng, tier, withInner)
 		}
-		r := &rsRun{kind: kind, ctl: &tickCtl{budget: -1, failat: -1, kinds: map[string]int{}}, tags: map[string]bool{}}
+		r := &rsRun{kind: kind, ctl: &tickCtl{budget: -1, failat: -1, kinds: map[string]int{}}, tags: map[string]bool{}, subOpt: idx%2 == 1}
 		if kind == "sqlite-file" {
 			dir := os.Getenv("VERIF_TMP")
 			if dir == "" {
